@@ -104,6 +104,13 @@ Proof.
 Qed.
 Print Assumptions C19_read_paths.
 
+(* the Sandboxed flag of a frame is set where the frame is set up and nowhere else: no assignment to (or handle on) a member
+   named Sandboxed in the interpreter (lib/config), in any native or anywhere else under lib/ than InitializeFrame's inherit
+   line and the API/CLI entry points (filterutility, eventqueue, consolehandler, consolecommand) *)
+Theorem C19_sandboxed_flag_stable : sb_cur_sandboxed_flag_stable = true.
+Proof. exact (eq_refl true <: sb_cur_sandboxed_flag_stable = true). Qed.
+Print Assumptions C19_sandboxed_flag_stable.
+
 Theorem C19_premises_hold : sb_premises sb_cur_facts = true.
 Proof. exact (eq_refl true <: sb_premises sb_cur_facts = true). Qed.
 Print Assumptions C19_premises_hold.
